@@ -338,6 +338,24 @@ def run_roundtrip(spec, out):
                         dict(t=t, u=u, r=r, s=s[:200]))
             out.guard(dict(base, t=t, phase=phase), body)
         b.collect_garbage()
+    if n <= 3:
+        # the same through dd.autoref (BDD.to_expr, Function.to_expr)
+        import dd.autoref as _ar
+        A = _ar.BDD()
+        A.declare(*order)
+        abd = Builder(A._bdd, nm)
+        for t in range(F + 1):
+            f = _ar.Function(abd(t), A)
+            cnt += 1
+
+            def body():
+                r1 = A.add_expr(A.to_expr(f))
+                r2 = A.add_expr(f.to_expr())
+                require(r1 == f and r2 == f and int(r1) == int(f),
+                        'to_expr.round_trip',
+                        dict(t=t, u=int(f), r=int(r1), api='autoref'))
+            out.guard(dict(base, t=t, phase='autoref'), body)
+            del f
     out.count(cnt, nt)
     out.sample(dict(base, t=F // 3, expr=b.to_expr(refs[F // 3])[:200]))
     out.exhaustive = True
